@@ -89,6 +89,13 @@ theorem greek_prefixes_own_letter :
     Render.htmlMap.lookup ['.'] = some "&sdot;".toList := by
   decide +kernel
 
+/-- the greek names and letters are the reference alphabet (the property: "greek prefixes map to their symbols"); this is the one place
+    where a table is compared with a literal, because here the literal is the specification -/
+theorem greek_reference :
+    Render.greekLetters = ["alpha", "beta", "gamma", "delta", "epsilon", "zeta", "eta", "theta", "iota", "kappa", "lambda", "mu", "nu", "xi",
+      "omicron", "pi", "rho", "sigma", "tau", "upsilon", "phi", "chi", "psi", "omega"].map String.toList ∧
+    Render.greekU = "αβγδεζηθικλμνξοπρστυφχψω".toList := by decide
+
 /-! ### the charge token -/
 
 def ChargeNonzero (f : Formula) : Prop := ∀ c, f.charge = some c → c.val ≠ 0
@@ -374,9 +381,9 @@ private def f0 : Formula :=
 example : f0.WF ∧ ChargeNonzero f0 ∧ noCurly f0 = true := by decide
 example : f0.render = "beta-.Ca2.832(OH)2·01H2O-012(s)".toList := by decide
 example : (canon f0).render = "beta-.Ca2.832(OH)2..H2O-12(s)".toList := by decide
-example : formulaToLatex f0.render = .ok "\\beta-^\\bullet Ca_{2.832}(OH)_{2}\\cdot H_{2}O^{12-}(s)".toList := by decide +kernel
-example : formulaToUnicode f0.render = .ok "β-⋅Ca₂.₈₃₂(OH)₂·H₂O¹²⁻(s)".toList := by decide +kernel
-example : formulaToHtml f0.render = .ok "&beta;-&sdot;Ca<sub>2.832</sub>(OH)<sub>2</sub>&sdot;H<sub>2</sub>O<sup>12-</sup>(s)".toList := by
+example : (formulaToLatex f0.render).toOption = some "\\beta-^\\bullet Ca_{2.832}(OH)_{2}\\cdot H_{2}O^{12-}(s)".toList := by decide +kernel
+example : (formulaToUnicode f0.render).toOption = some "β-⋅Ca₂.₈₃₂(OH)₂·H₂O¹²⁻(s)".toList := by decide +kernel
+example : (formulaToHtml f0.render).toOption = some "&beta;-&sdot;Ca<sub>2.832</sub>(OH)<sub>2</sub>&sdot;H<sub>2</sub>O<sup>12-</sup>(s)".toList := by
   decide +kernel
 example : unLatex "\\theta-[Fe(CN)_{6}]\\{X\\}^{3+}(aq)".toList = "theta-[Fe(CN)6]{X}+3(aq)".toList := by decide +kernel
 example : unUnicode "θ-Na₂CO₃·7H₂O⁻".toList = "theta-Na2CO3..7H2O-".toList := by decide +kernel
